@@ -508,7 +508,7 @@ class ViewRandom(View):
     name = "viewr"
     exhaustive = False
     batch = 20
-    budget_share = 1.5
+    budget_share = 1.0
 
     def cases(self, tier, rng):
         nc = self.colors
@@ -820,7 +820,7 @@ class Combo(Family):
     name = "combo"
     exhaustive = True
     batch = 500
-    budget_share = 1.5
+    budget_share = 1.7
 
     def setup(self):
         _gc_setup()
@@ -875,7 +875,7 @@ class ComboRandom(Combo):
     name = "combor"
     exhaustive = False
     batch = 200
-    budget_share = 0.6
+    budget_share = 0.5
 
     def cases(self, tier, rng):
         n = 3000 if tier == "quick" else 60000
@@ -983,7 +983,7 @@ class DCombo(Family):
     name = "dcombo"
     exhaustive = True
     batch = 500
-    budget_share = 0.5
+    budget_share = 1.0
 
     def setup(self):
         _gc_setup()
@@ -1197,7 +1197,7 @@ class Axes(Family):
     name = "axes"
     exhaustive = True
     batch = 300
-    budget_share = 1.0
+    budget_share = 1.6
 
     def setup(self):
         _gc_setup()
@@ -1294,6 +1294,22 @@ class Axes(Family):
 PROP = Property(
     id="C18",
     title="Viewers and attribute pickers mirror the collection",
-    theorems=["C18.placeholder"],
+    theorems=["C18.viewer_inv_init", "C18.viewer_step_inv", "C18.viewer_reachable_inv", "C18.viewer_reachable_spec",
+              "C18.viewer_mirrors_collection", "C18.viewer_layers_plain", "C18.restore_layers",
+              "C18.refresh_sound_complete", "C18.refresh_order", "C18.refresh_nodup", "C18.refresh_none",
+              "C18.selection_valid_after_refresh", "C18.selection_valid", "C18.explicit_none_accepted",
+              "C18.combo_history_valid", "C18.dcombo_history_valid",
+              "C18.image_axes_distinct", "C18.image_axes_spec", "C18.image_1d_reference_crashes"],
     families=[Axes(), Combo(), ComboRandom(), DCombo(), View(), ViewRandom()],
+    trusted_base=["the `echo` callback-property library (SelectionCallbackProperty._choices_updated / __set__, delay_callback, CallbackList) is modelled (its selection rule) or assumed (callback ordering), validated by the correspondence families",
+                  "matplotlib / astropy WCSAxes drawing is stubbed out in the harness process (FigureCanvasAgg.draw, draw_idle): only the layer bookkeeping of the viewers is under test",
+                  "GlueSerializer / GlueUnSerializer are exercised for viewer save + restore, their effect on the bookkeeping is modelled (restored objects stand for the saved ones)",
+                  "C06's collection model and invariant (Model/Collection.lean, Lemmas/C06.lean) for the datasets / subset groups underneath the viewer"],
+    assumptions=["datasets enter the collection without subsets of their own; subsets are created through new_subset_group only (C06)",
+                 "viewer correspondence uses 2-d datasets of one shape for all four viewer classes; layer z-order is never edited by hand (viewer.layers is sorted by zorder)",
+                 "x_att / y_att setters are called with pixel axes of the current reference data; explicit selections of None only while None is on offer (echo accepts None unconditionally: theorem explicit_none_accepted)",
+                 "snapshots taken while a hub delay block is open are compared with the model but not judged by the Spec (the helper has not been told yet, by design)",
+                 "restore is checked for the scatter and image viewers; histogram / profile viewers cannot be restored on this tree (known finding C18c = C12's F12)"],
+    rule="view: one extended viewer op (add_subset / remove_subset / remove_layer / state.layers.remove / restore / second-dataset ops) at every position of every core sequence (append/remove x2 datasets, new group, remove group, add_data x2, remove_data) of length 2 (quick) / 3 (thorough); every core sequence of length 4 / 5; every sequence of length 5 / 7 over a 5-letter one-dataset alphabet; viewer class rotating by case; viewr: seeded random histories of length 4-15 / 4-40 over 2-3 datasets, up to 3 groups, with restores. combo: every sequence of 3 ops over a 25-letter core alphabet after helper.append_data + every pair over the full 39-letter alphabet after three prefixes (thorough: triples over the full alphabet, 4-sequences over 19 letters); combor: random length 4-15 / 4-40. dcombo: every sequence of length 3-4 / 4-5 over 12-15 letters for both helper classes and two initial collections. axes: every setter sequence of length 3 (thorough 4, all three coordinate kinds) on a 3-d and a 2-d reference dataset, every sequence of length 2 (thorough 4) over the full 18-letter alphabet incl. reference-data changes and layers coming and going, samples of the next length. non-trivial = the history touches both sides (e.g. add_data and a collection change).",
+    partial_note="Partial for per-viewer State subclasses: 'all callback-property values of State subclasses' is covered only as far as ImageViewerState's axis attributes, the viewers' layers list and the SelectionCallbackProperty rule; other callback properties (limits, colours, ...) are not modelled.",
 )
